@@ -45,14 +45,23 @@ TRUSTED = [
     "records dispatch_source_get_data, and the state of the timer at the following _dispatch_unote_resume (target, "
     "deadline after the catch-up of source.c:521) must equal the model's after `latch` (keys trace:latch-data, "
     "trace:resume-state); the end-to-end oracle checks the reported counts of the real library against the boundaries",
-    "the source side (Model/TimerRun.v xstep: _dispatch_source_wakeup's test, the order of actions in "
-    "_dispatch_source_invoke2, where dx_wakeup is called) is modelled by reading src/source.c:715-975; tied by the trace "
-    "replay: every recorded _dispatch_unote_resume must find the model's timer satisfying invoke2's rearm condition "
-    "(registered, not armed, no configuration and no data pending, target < INT64_MAX: key trace:rearm-rule), every "
-    "configure / register / unregister is replayed where the library did it, and the e2e oracle checks that timers keep "
-    "firing across suspend/resume, set_timer and lagging handlers.  x_enq (\"a wakeup is pending\") abstracts the lane's "
-    "enqueue / DIRTY protocol: that an enqueued unsuspended source is eventually invoked and that a dx_wakeup racing with "
-    "an invoke is not lost belongs to C01/C04 and is NOT proved here; one XInvoke = one action of invoke2",
+    "the source side (Model/TimerRun.v: wake_needed = _dispatch_source_wakeup's test, invoke_step = the order of actions in "
+    "_dispatch_source_invoke2, xstep = where dx_wakeup is called) is modelled by reading src/source.c:715-975.  wake_needed and "
+    "invoke_step are extracted (Extract_c11.v) and evaluated by the trace replay at every recorded source-side call of the "
+    "library (_dispatch_timer_unote_configure, _dispatch_unote_resume, _dispatch_unote_unregister, the latch of source.c): "
+    "wake_needed must be true of the model's state there (key trace:wake-needed) and the state after the library's own action "
+    "must equal the state invoke_step produces (key trace:invoke-step; counts trace_src_wake_checks / trace_src_invoke_compared; "
+    "not compared, only counted in trace_src_invoke_skipped: a call made while a configuration raced in or the source was "
+    "suspended during the call).  NOT tied by any execution: xstep's placement of dx_wakeup at the client operations (the "
+    "recorder does not hook dx_wakeup; the necessary direction - the library invokes only when wake_needed holds - is what is "
+    "checked), and x_enq itself, which abstracts the lane's enqueue / DIRTY protocol: that an enqueued unsuspended source is "
+    "eventually invoked and that a dx_wakeup racing with an invoke is not lost belongs to C01/C04 and is NOT proved here; one "
+    "XInvoke = one action of invoke2.  A library transition the xstep system does not have: a set_timer between invoke2's "
+    "configure test and its rearm test makes invoke2 resume an armed timer with the old values (counted: "
+    "trace_resume_with_config_pending)",
+    "C11_never_early and C11_set_timer_replaces are definitional (they restate run_loop's guard / unfold configure): their "
+    "content is the correspondence of run_loop and configure with the library.  C11_count_bound speaks about one repeating "
+    "timer between two set_timer calls; C11_kernel_timer_refines is a per-step, one-directional refinement",
     "the segmented storage of the heap is modelled as a flat map; get_slot's cell computation is modelled separately "
     "(slot_addr), proved injective and in bounds, and compared with the addresses the library computes",
     "clock readings are parameters; in the white-box runs the manager's clock cache is faked, in the end-to-end runs the "
@@ -74,9 +83,11 @@ ASSUMPTIONS = ["at most 2^30 - 12 timer records (N with 2N + 2 <= capacity of 29
                "clock values below 2^62 - 1 (Model/Time.v clocks_ok, as for C12) resp. below 2^63 for cached readings",
                "the manager thread runs _dispatch_event_loop_drain_timers whenever the dirty bits are set and when the programmed "
                "timerfd expires (kernel, scheduler); within one call the clock readings are the cached ones (constant)",
-               "C11_always_fires: the lane invokes an enqueued, unsuspended source (x_enq; C01/C04), clients do not cancel a "
-               "source before activating it and do not suspend an inactive one (xguard), dispatch_after sources are never "
-               "cancelled or reconfigured (they are private to _dispatch_after)",
+               "C11_always_fires / C11_rearm_progress / C11_after_at_most_once: the lane invokes an enqueued, unsuspended source "
+               "(x_enq; C01/C04); histories are restricted by xguard: no dispatch_source_cancel before dispatch_activate "
+               "(source.c:649-652 handles that case, the model does not), no dispatch_suspend of an inactive source, "
+               "SINGLE-LEVEL suspension (t_susp is a flag, not dq_state's suspend count: suspend;suspend;resume is outside the "
+               "theorems), dispatch_after sources are never cancelled or reconfigured (they are private to _dispatch_after)",
                "whole C functions are atomic steps (see TRUSTED, GRANULARITY)"]
 
 U64 = 1 << 64
@@ -198,13 +209,26 @@ def exhaustive_seqs(nt, depth):
     return res
 
 
+LOAD_RETRIES = {"n": 0}
+
+
+def run3(cmd, input=None, timeout=600):
+    """common.run with the load rule: a wall-clock expiry alone never decides anything.  On expiry the unit is re-run ONCE,
+       alone, with ten times the limit; only that second result is used (a second expiry is reported as such)"""
+    r = common.run(cmd, input=input, timeout=timeout)
+    if r.returncode == 124:
+        LOAD_RETRIES["n"] += 1
+        r = common.run(cmd, input=input, timeout=10 * timeout)
+    return r
+
+
 def run_both(exe, mexe, lines):
     """feed the same command lines to the library harness and to the extracted model; returns (impl_lines, model_lines, err)"""
     inp = "\n".join(lines) + "\n"
-    r = common.run([exe], input=inp, timeout=1800)
+    r = run3([exe], input=inp, timeout=1800)
     if r.returncode != 0:
         return None, None, "harness exit %s: %s" % (r.returncode, (r.stderr or "")[-1500:])
-    m = common.run([mexe], input=inp, timeout=1800)
+    m = run3([mexe], input=inp, timeout=1800)
     if m.returncode != 0:
         return None, None, "model driver exit %s: %s" % (m.returncode, (m.stderr or "")[-1500:])
     return [l for l in r.stdout.split("\n") if l.strip()], [l for l in m.stdout.split("\n") if l.strip()], ""
@@ -231,13 +255,19 @@ def run_heap(exe, mexe, seqs):
 def check_heap(seqs, dumps, mdumps):
     """entry-by-entry comparison of the complete dump after every operation"""
     mism, total = [], 0
+    if not (len(seqs) == len(dumps) == len(mdumps)):
+        return [{"what": "timer heap: %d sequences, %d library dumps, %d model dumps" % (len(seqs), len(dumps), len(mdumps)), "detail": {}}], 0
     for (nt, ops), ds, ms in zip(seqs, dumps, mdumps):
+        if not (len(ops) == len(ds) == len(ms)):
+            mism.append({"what": "timer heap: a sequence of %d operations produced %d library dumps and %d model dumps" % (len(ops), len(ds), len(ms)),
+                         "detail": {"timers": nt, "ops": [list(o) for o in ops[:60]]}})
+            continue
         for i, (d, m) in enumerate(zip(ds, ms)):
             total += 1
             if d != m:
                 where = next((k for k in range(min(len(d), len(m))) if d[k] != m[k]), min(len(d), len(m)))
                 mism.append({"what": "timer heap: library and Model/Heap.v differ after operation %d (%s) of a sequence, dump entry %d" % (i, list(ops[i]), where),
-                             "detail": {"timers": nt, "ops": [list(o) for o in ops[:i + 1]], "impl_dump": d[:200], "model_dump": m[:200]}})
+                             "detail": {"kind": "heap", "timers": nt, "ops": [list(o) for o in ops[:i + 1]], "impl_dump": d[:200], "model_dump": m[:200]}})
                 break
         if len(mism) >= 10:
             break
@@ -423,16 +453,16 @@ def judge_cfg(case, obs):
     return None
 
 
-def check_cfg(ctx, mexe, mism, fails, dist, samples):
+def check_cfg(ctx, mexe, mism, fails, dist, samples, cases=None):
     exe, msg = common.build_harness("c11_cfg", ["c11_cfg.c"], whitebox=True, exclude_objs=("source.c.o",))
     if exe is None:
         mism.append({"what": "harness build failed (white-box include of src/source.c)", "detail": msg[-1500:]})
         return 0
-    G, H = gen_cfg_cases(ctx.rng, 300 if ctx.tier == "quick" else 10000)
+    G, H = gen_cfg_cases(ctx.rng, 300 if ctx.tier == "quick" else 10000) if cases is None else ([tuple(x) for x in cases[0]], [tuple(x) for x in cases[1]])
     # DISPATCH_SOURCE_TYPE_INTERVAL: start NOW or FOREVER, interval >= 1 (ms or frames), leeway permille <= 1000 or UINT64_MAX
-    J = []
+    J = [] if cases is None else [tuple(x) for x in cases[2]]
     rng = ctx.rng
-    for _ in range(len(G) // 3):
+    for _ in range(len(G) // 3 if cases is None else 0):
         anim = rng.below(2)
         lim = 31536000000000000 // (16666666 if anim else 1000000)
         itv = rng.choice([1, 2, 16, 1000, lim - 1, lim, lim + 1, lim // 2, 18446744073709 if not anim else 1106804644, U64 - 1,
@@ -440,7 +470,7 @@ def check_cfg(ctx, mexe, mism, fails, dist, samples):
         lee = rng.choice([0, 1, 500, 999, 1000, U64 - 1, rng.below(1001)])
         J.append((rng.choice([0, 0, 0, FOREVER]), itv, lee, anim))
     lines = ["G %d %d %d %d" % g for g in G] + ["H %d" % h for h in H] + ["J %d %d %d %d" % j for j in J]
-    r = common.run([exe], input="\n".join(lines) + "\n", timeout=600)
+    r = run3([exe], input="\n".join(lines) + "\n", timeout=600)
     out = [l for l in r.stdout.split("\n") if l.strip()]
     if r.returncode != 0 or len(out) != len(lines):
         mism.append({"what": "harness run failed (config_create / dispatch_after)", "detail": {"rc": r.returncode, "lines": len(out), "err": (r.stderr or "")[-800:]}})
@@ -465,7 +495,7 @@ def check_cfg(ctx, mexe, mism, fails, dist, samples):
     for j, (c1, c2) in zip(J, clk[len(G) + len(H):]):
         for c in (c1, c2):
             mlines.append("J %d %d %d %d %d" % (j + (c[0],)))
-    m = common.run([mexe], input="\n".join(mlines) + "\n", timeout=600)
+    m = run3([mexe], input="\n".join(mlines) + "\n", timeout=600)
     mout = [[int(x) for x in l.split()] for l in m.stdout.split("\n") if l.strip()]
     if m.returncode != 0 or len(mout) != len(G) + 2 * len(H) + 2 * len(J):
         mism.append({"what": "model driver failed (config_create / dispatch_after)", "detail": (m.stderr or "")[-800:]})
@@ -475,7 +505,7 @@ def check_cfg(ctx, mexe, mism, fails, dist, samples):
     for g, o, mo in zip(G, obs[:len(G)], mout[:len(G)]):
         if o != mo:
             mism.append({"what": "_dispatch_timer_config_create differs from Model/TimerRun.v config_create",
-                         "detail": {"start,interval,leeway,flags": list(g), "impl": o, "model": mo}})
+                         "detail": {"kind": "cfg", "case": list(g), "start,interval,leeway,flags": list(g), "impl": o, "model": mo}})
         w = judge_cfg(g, o)
         if w:
             fails.append({"key": "config:" + w.split()[0], "what": "_dispatch_timer_config_create(start=%d, interval=%d, leeway=%d, flags=%d) -> clock %d target %d deadline %d interval %d: %s"
@@ -492,7 +522,7 @@ def check_cfg(ctx, mexe, mism, fails, dist, samples):
                 ok = True     # DISPATCH_WALLTIME_NOW read inside the call
         if not ok:
             mism.append({"what": "_dispatch_after differs from Model/TimerRun.v dispatch_after_model (evaluated at the clock readings before and after the call)",
-                         "detail": {"when": h[0], "impl": o, "model_before": r1, "model_after": r2}})
+                         "detail": {"kind": "after", "when": h[0], "impl": o, "model_before": r1, "model_after": r2}})
         if o[0] == 2:
             c, v = py_decode(h[0], o[2])
             if o[4] != UINT64_MAX or not (o[5] & 0x40):
@@ -509,7 +539,7 @@ def check_cfg(ctx, mexe, mism, fails, dist, samples):
         r1, r2 = mout[base], mout[base + 1]
         if o != r1 and o != r2:
             mism.append({"what": "_dispatch_interval_config_create differs from Model/TimerRun.v interval_config_create (evaluated at the uptime readings before and after the call)",
-                         "detail": {"start,interval,leeway,animation": list(j), "impl": o, "model_before": r1, "model_after": r2}})
+                         "detail": {"kind": "icfg", "case": list(j), "start,interval,leeway,animation": list(j), "impl": o, "model_before": r1, "model_after": r2}})
         (c1, c2) = clk[len(G) + len(H) + i]
         clock, tg, dl, iv = o
         w = None
@@ -536,6 +566,8 @@ def check_cfg(ctx, mexe, mism, fails, dist, samples):
     dist["dispatch_after_cases"] = len(H)
     dist["dispatch_after_kinds(dropped,async,timer)"] = [kinds[0], kinds[1], kinds[2]]
     dist["dispatch_after_out_of_range_when"] = wrap
+    if cases is not None:
+        return len(G) + len(H) + len(J)
     samples.append({"config_create": list(G[0]), "impl": obs[0]})
     return len(G) + len(H) + len(J) + check_timer_data(ctx, exe, mexe, mism, dist)
 
@@ -543,13 +575,14 @@ def check_cfg(ctx, mexe, mism, fails, dist, samples):
 # ---------------------------------------------------------------------------------------------------------
 # kernel side of the timers (src/event/event_epoll.c), white-box harness c11_epoll.c
 
-def check_timer_data(ctx, exe, mexe, mism, dist):
+def check_timer_data(ctx, exe, mexe, mism, dist, cases=None):
     """source.c's own _dispatch_source_timer_data (the handler-side catch-up, source.c:505-526) against the model's latch:
        the white-box latch command of c11_heap.c is a transcription, this is the real function (real clock read inside)"""
     rng = ctx.rng
     n = 150 if ctx.tier == "quick" else 4000
-    cases = []
-    for _ in range(n):
+    given = cases is not None
+    cases = [tuple(c) for c in cases] if given else []
+    for _ in range(0 if given else n):
         clock = rng.below(3)
         itv = rng.choice([1, 7, 1000, 10**6, 10**9, 3 * 10**9 + 1, I63 - 1, I63, UINT64_MAX, rng.range(1, 10**10)])
         small = itv if itv < 10**12 else 10**9
@@ -560,7 +593,7 @@ def check_timer_data(ctx, exe, mexe, mism, dist):
         if absolute:
             lee = 0
         cases.append((clock, back, lee, itv, (cnt << 1) | 1, absolute))
-    r = common.run([exe], input="\n".join("T %d %d %d %d %d %d" % c for c in cases) + "\n", timeout=300)
+    r = run3([exe], input="\n".join("T %d %d %d %d %d %d" % c for c in cases) + "\n", timeout=300)
     out = [l for l in r.stdout.split("\n") if l.strip()]
     if r.returncode != 0 or len(out) != len(cases):
         mism.append({"what": "harness run failed (_dispatch_source_timer_data)", "detail": {"rc": r.returncode, "lines": len(out), "err": (r.stderr or "")[-800:]}})
@@ -576,7 +609,7 @@ def check_timer_data(ctx, exe, mexe, mism, dist):
         inside = min(max(tg2 - c[3], nb), na) if (tg2 != tg and c[3] < I63) else nb
         for now in (nb, na, inside):
             ml += ["N 1", "t 1 %d" % (c[0] << 2), "c 1 %d %d %d %d" % (c[0], tg, dl % U64, c[3]), "g 1", "p 1 %d" % c[4], "l 1 %d" % now, "S"]
-    m = common.run([mexe], input="\n".join(ml) + "\n", timeout=600)
+    m = run3([mexe], input="\n".join(ml) + "\n", timeout=600)
     mo = [[int(x) for x in l.split()] for l in m.stdout.split("\n") if l.strip()]
     if m.returncode != 0 or len(mo) != 6 * len(cases):
         mism.append({"what": "model driver failed (_dispatch_source_timer_data)", "detail": {"lines": len(mo), "err": (m.stderr or "")[-800:]}})
@@ -591,7 +624,7 @@ def check_timer_data(ctx, exe, mexe, mism, dist):
         if o not in res:
             mism.append({"what": "_dispatch_source_timer_data (src/source.c, the handler-side catch-up) differs from Model/TimerRun.v latch "
                                  "(evaluated at the clock readings before and after the call and at the reading in between that the new target implies)",
-                         "detail": {"clock,back,leeway,interval,prev,abs": list(c), "impl data,target,deadline": list(o), "model_before": list(res[0]), "model_after": list(res[1]), "model_inside": list(res[2])}})
+                         "detail": {"kind": "timer-data", "case": list(c), "clock,back,leeway,interval,prev,abs": list(c), "impl data,target,deadline": list(o), "model_before": list(res[0]), "model_after": list(res[1]), "model_inside": list(res[2])}})
         if o[0] != c[4] >> 1:
             caught += 1
     dist["timer_data_calls"] = len(cases)
@@ -599,15 +632,15 @@ def check_timer_data(ctx, exe, mexe, mism, dist):
     return len(cases)
 
 
-def check_epoll(ctx, mexe, mism, fails, dist, samples):
+def check_epoll(ctx, mexe, mism, fails, dist, samples, script=None):
     exe, msg = common.build_harness("c11_epoll", ["c11_epoll.c"], whitebox=True, exclude_objs=("event_epoll.c.o",))
     if exe is None:
         mism.append({"what": "harness build failed (white-box include of src/event/event_epoll.c)", "detail": msg[-1500:]})
         return 0
     rng = ctx.rng
     n = 400 if ctx.tier == "quick" else 20000
-    cl, ml = [], ["N 3"]
-    for _ in range(n):
+    cl, ml = ([], ["N 3"]) if script is None else (list(script[0]), list(script[1]))
+    for _ in range(n if script is None else 0):
         k = rng.below(10)
         i = rng.below(3)
         if k < 4:
@@ -623,15 +656,16 @@ def check_epoll(ctx, mexe, mism, fails, dist, samples):
         else:
             a, b = rng.below(2), rng.below(2)
             cl.append("h %d %d %d" % (i, a, b)); ml.append("kh %d %d %d" % (i, a, b))
-    r = common.run([exe], input="\n".join(cl) + "\n", timeout=300)
-    m = common.run([mexe], input="\n".join(ml) + "\n", timeout=300)
+    r = run3([exe], input="\n".join(cl) + "\n", timeout=300)
+    m = run3([mexe], input="\n".join(ml) + "\n", timeout=300)
     out = [l for l in r.stdout.split("\n") if l.strip()]
     mout = [l for l in m.stdout.split("\n") if l.strip()]
-    if r.returncode != 0 or m.returncode != 0 or len(out) != len(cl) or len(mout) != len(cl):
+    if r.returncode != 0 or m.returncode != 0 or len(out) != len(cl) or len(mout) != len(cl) or len(ml) != len(cl) + 1:
         mism.append({"what": "harness / model run failed (epoll timers)", "detail": {"rc": [r.returncode, m.returncode], "lines": [len(out), len(mout), len(cl)], "err": (r.stderr or "")[-500:] + (m.stderr or "")[-500:]}})
         return 0
     narm = 0
-    for c, l, mm in zip(cl, out, mout):
+    for ci, (c, l, mm) in enumerate(zip(cl, out, mout)):
+        script_here = {"script": [cl[:ci + 1], ml[:ci + 2]]} if ci < 6000 else {}
         calls, ks, hs, dy = l[1:].split("#")
         li = []
         for tk in calls.split():
@@ -640,7 +674,7 @@ def check_epoll(ctx, mexe, mism, fails, dist, samples):
         mi = [int(x) for x in mm.split()]
         if li != mi:
             mism.append({"what": "event_epoll.c timer functions differ from Model/TimerRun.v (timeout_program / merge_timer)",
-                         "detail": {"command": c, "impl": li, "model": mi}})
+                         "detail": dict({"kind": "epoll", "command": c, "impl": li, "model": mi}, **script_here)})
             break
         a = c.split()
         if a[0] in "aA":
@@ -650,7 +684,7 @@ def check_epoll(ctx, mexe, mism, fails, dist, samples):
                 narm += 1
                 st = [int(tk[2:]) for tk in calls.split() if tk[0] == "s"]
                 if kk != [1, 1, 1] or st != [tg]:
-                    fails.append({"key": "epoll-arm", "what": "after programming clock %s to %d the timerfd is created/registered/armed = %s and timerfd_settime got %s" % (a[1], tg, kk, st), "kind": "epoll", "command": c})
+                    fails.append({"key": "epoll-arm", "what": "after programming clock %s to %d the timerfd is created/registered/armed = %s and timerfd_settime got %s" % (a[1], tg, kk, st), "kind": "epoll", "command": c, **script_here})
     dist["epoll_timer_commands"] = len(cl)
     dist["epoll_timer_arms_below_forever"] = narm
     return len(cl)
@@ -659,20 +693,20 @@ def check_epoll(ctx, mexe, mism, fails, dist, samples):
 # ---------------------------------------------------------------------------------------------------------
 # trace replay: harness c11_trace.c records what a real process does; props/c11_trace.py replays it through the model
 
-def check_trace(ctx, mexe, mism, fails, dist, samples):
+def check_trace(ctx, mexe, mism, fails, dist, samples, seeds=None):
     from props import c11_trace
     exe, msg = common.build_harness("c11_trace", ["c11_trace.c"], whitebox=True, exclude_objs=("event.c.o",))
     if exe is None:
         mism.append({"what": "trace harness build failed (white-box include of src/event/event.c in a full process)", "detail": msg[-1500:]})
         return 0
-    runs = 2 if ctx.tier == "quick" else 15
+    runs = (2 if ctx.tier == "quick" else 15) if seeds is None else len(seeds)
     tot, done = {}, 0
-    for _ in range(runs):
-        sd = ctx.rng.next() % (1 << 62)
-        r = common.run([exe, str(sd)], timeout=120)
+    for ri in range(runs):
+        sd = ctx.rng.next() % (1 << 62) if seeds is None else seeds[ri]
+        r = run3([exe, str(sd)], timeout=120)
         lines = r.stdout.split("\n")
         if r.returncode != 0 or not any(l.startswith("END") and l.endswith("ok") for l in lines):
-            mism.append({"what": "trace recorder did not finish", "detail": {"seed": sd, "rc": r.returncode, "tail": lines[-3:], "err": (r.stderr or "")[-400:]}})
+            mism.append({"what": "trace recorder did not finish", "detail": {"kind": "trace", "seed": sd, "rc": r.returncode, "tail": lines[-3:], "err": (r.stderr or "")[-400:]}})
             continue
         log = [tuple(int(x) for x in l.split()) for l in lines if l and l[0].isdigit()]
         rep = {}
@@ -689,11 +723,13 @@ def check_trace(ctx, mexe, mism, fails, dist, samples):
             tot["traces_cut_short_by_a_cross_thread_race"] = tot.get("traces_cut_short_by_a_cross_thread_race", 0) + 1
         for pb in probs[:6]:
             mism.append({"what": "recorded run of the library does not replay through Model/TimerRun.v under the guards of the system theorems: "
-                                 + pb["what"], "detail": {"seed": sd, "key": pb["key"]}})
+                                 + pb["what"], "detail": {"kind": "trace", "seed": sd, "key": pb["key"]}})
         done += 1
     for k, v in tot.items():
         dist["trace_" + k] = v
     dist["trace_runs"] = done
+    if done == 0:
+        mism.append({"what": "trace replay: no recorded run was replayed", "detail": {}})
     samples.append({"trace_replay_totals": tot})
     return tot.get("passes", 0) + tot.get("resume", 0) + tot.get("latch", 0) + tot.get("configure", 0)
 
@@ -948,6 +984,9 @@ def correspond(ctx):
         return {"mismatches": [{"what": "harness build failed (white-box include of src/event/event.c)", "detail": msg}],
                 "failures": [], "evaluations": 0}
     okc, outc = common.coq_make(["Extract/Extract_c11.vo"], timeout=900)
+    if not okc and "TIMEOUT" in (outc or "").upper():
+        LOAD_RETRIES["n"] += 1
+        okc, outc = common.coq_make(["Extract/Extract_c11.vo"], timeout=9000)
     mexe, msg = common.build_ocaml("c11_driver.ml", extracted=("c11_model",)) if okc else (None, outc[-1500:])
     if mexe is None:
         return {"mismatches": [{"what": "extraction / OCaml build of the model failed", "detail": msg}], "failures": [], "evaluations": 0}
@@ -991,45 +1030,58 @@ def correspond(ctx):
         if t in (1, 2, 5, 6, 9, 10, 17, 18, 32, 33, 63, 64, 126, 127, 250, 299):
             lines.append("A")
     out, mout, err = run_both(exe, mexe, lines)
+    want = [l[0] for l in lines if l[0] in "IA"]          # the commands that answer with one line each
     if out is None:
         mism.append({"what": "harness run failed (addresses)", "detail": err})
+    elif not (len(out) == len(mout) == len(want)):
+        mism.append({"what": "addresses: %d commands with an answer, %d library lines, %d model lines" % (len(want), len(out), len(mout)), "detail": {}})
     else:
-        na = 0
-        for l, m in zip(out, mout):
+        na, maxcells = 0, 0
+        for wk, l, m in zip(want, out, mout):
+            if wk != "A":
+                continue
             li = [int(x) for x in l.replace("|", " ").split()]
             mi = [int(x) for x in m.split()]
-            if len(li) < 300 and "|" in l and l.count("|") == 1:     # an A line
-                na += 1
-                if li != mi:
-                    mism.append({"what": "get_slot: cell (segment, offset) differs from Model/Heap.v slot_addr", "detail": {"impl": li[:60], "model": mi[:60]}})
+            na += 1
+            maxcells = max(maxcells, (len(li) - 2) // 2)
+            if li != mi:
+                where = next((k for k in range(min(len(li), len(mi))) if li[k] != mi[k]), min(len(li), len(mi)))
+                mism.append({"what": "get_slot: cell (segment, offset) differs from Model/Heap.v slot_addr (entry %d)" % where,
+                             "detail": {"kind": "addr", "impl": li[max(0, where - 10):where + 20], "model": mi[max(0, where - 10):where + 20]}})
+        if na != 16:
+            mism.append({"what": "address maps: %d of 16 compared" % na, "detail": {}})
         evals += na
         dist["address_maps_compared"] = na
+        dist["address_map_largest_cells"] = maxcells
     # 3. compute_missed
     mc = gen_missed(rng, 400 if quick else 20000)
     out, mout, err = run_both(exe, mexe, ["M %d %d %d %d %d" % c for c in mc])
     if out is None:
         mism.append({"what": "harness run failed (compute_missed)", "detail": err})
+    elif not (len(out) == len(mout) == len(mc)):
+        mism.append({"what": "compute_missed: %d cases, %d library answers, %d model answers" % (len(mc), len(out), len(mout)), "detail": {}})
     else:
-        nclamp = 0
+        nclamp = nmc = 0
         for c, l, m in zip(mc, out, mout):
+            nmc += 1
             li = [int(x) for x in l.split()]
             mi = [int(x) for x in m.split()]
             evals += 1
             if li != mi:
                 mism.append({"what": "_dispatch_timer_unote_compute_missed differs from Model/TimerRun.v compute_missed",
-                             "detail": {"target,deadline,interval,now,prev": list(c), "impl": li, "model": mi}})
+                             "detail": {"kind": "missed", "case": list(c), "target,deadline,interval,now,prev": list(c), "impl": li, "model": mi}})
             w = judge_missed(c, li)
             if w:
                 fails.append({"key": "missed:" + w.split(",")[0][:30], "what": "compute_missed(target=%d, deadline=%d, interval=%d, now=%d, prev=%d) -> %s: %s" % (c + (li, w)),
                               "kind": "missed", "case": list(c)})
             if c[4] + (c[3] - c[0]) // max(c[2], 1) + 1 > LONG_MAX:
                 nclamp += 1
-        dist["compute_missed_cases"] = len(mc)
+        dist["compute_missed_cases"] = nmc
         dist["compute_missed_clamped"] = nclamp
         samples.append({"compute_missed": list(mc[0]), "impl": out[0]})
     # 4. the state machine: run / program / configure / resume / unregister / latch
     nseq = 12 if quick else 300
-    nstate = 0
+    nstate = nseq_done = 0
     nfires = narm = ndel = 0
     corpus = [
         # a due timer changes clock while the manager's pass has already run the heap it moves to: the pass must go round again
@@ -1052,10 +1104,12 @@ def correspond(ctx):
         if out is None:
             mism.append({"what": "harness run failed (state machine)", "detail": {"err": err, "lines": lines[:400]}})
             continue
-        if len(out) != len(mout):
-            mism.append({"what": "state machine: different number of answers", "detail": {"impl": len(out), "model": len(mout)}})
-            continue
         cmds = [l for l in lines if l[0] in "RPSlW"]
+        if not (len(out) == len(mout) == len(cmds)):
+            mism.append({"what": "state machine: %d commands with an answer, %d library answers, %d model answers" % (len(cmds), len(out), len(mout)),
+                         "detail": {"kind": "tseq-tie", "timers": nt, "commands": lines[:600]}})
+            continue
+        nseq_done += 1
         for l in out:
             if l.startswith("E"):
                 nfires += len(l.split("#")[0].split()) - 1 + (1 if len(l.split("#")[0]) > 1 and l[1] != " " else 0)
@@ -1073,7 +1127,7 @@ def correspond(ctx):
                 where = next((k for k in range(min(len(li), len(mi))) if li[k] != mi[k]), min(len(li), len(mi)))
                 upto = lines.index(cmds[i]) if cmds[i] in lines else 0
                 mism.append({"what": "timer state machine: library and Model/TimerRun.v differ at answer %d (%s), entry %d" % (i, cmds[i], where),
-                             "detail": {"timers": nt, "impl": li[:80], "model": mi[:80], "commands": lines}})
+                             "detail": {"kind": "tseq-tie", "timers": nt, "impl": li[:80], "model": mi[:80], "commands": lines[:1200]}})
                 break
         for f in judge_tseq(lines, out, nt):
             f["kind"] = "tseq"; f["lines"] = lines; f["timers"] = nt
@@ -1081,7 +1135,9 @@ def correspond(ctx):
         if si == 0:
             samples.append({"state_machine_commands": lines[:12], "impl_answer": out[0][:160]})
     evals += nstate
-    dist["state_machine_sequences"] = nseq + len(corpus)
+    dist["state_machine_sequences"] = nseq_done
+    if nseq_done == 0:
+        mism.append({"what": "state machine: no sequence was compared", "detail": {}})
     dist["state_machine_answers_compared"] = nstate
     dist["state_machine_fire_events"] = nfires
     dist["state_machine_kernel_arm_calls"] = narm
@@ -1099,13 +1155,14 @@ def correspond(ctx):
     else:
         runs = 3 if quick else 30
         scale = 1 if quick else 2
+        e2e_done = 0
         tot = {"afters": 0, "timers": 0, "reconf": 0, "reconf_fired_with_new_settings": 0, "once": 0, "fired": 0}
         for i in range(runs):
             sd = rng.next() % (1 << 62)
-            r = common.run([e2e, str(sd), str(scale)], timeout=120)
+            r = run3([e2e, str(sd), str(scale)], timeout=120)
             summ = [l for l in r.stdout.split("\n") if l.startswith("SUMMARY")]
             if not summ:
-                mism.append({"what": "end-to-end harness did not finish", "detail": {"seed": sd, "rc": r.returncode, "err": (r.stderr or "")[-500:]}})
+                mism.append({"what": "end-to-end harness did not finish", "detail": {"kind": "e2e", "scale": scale, "seed": sd, "rc": r.returncode, "err": (r.stderr or "")[-500:]}})
                 continue
             for kv in summ[0].split()[1:]:
                 k, v = kv.split("=")
@@ -1116,10 +1173,14 @@ def correspond(ctx):
                     kind = l.split()[1]
                     fails.append({"key": "e2e:" + kind, "what": "public API, seed %d: %s" % (sd, l[5:]), "kind": "e2e", "seed": sd, "scale": scale})
             evals += 1
-        dist["e2e_runs"] = runs
+            e2e_done += 1
+        dist["e2e_runs"] = e2e_done
+        if e2e_done == 0:
+            mism.append({"what": "end-to-end oracle: no run finished", "detail": {}})
         for k, v in tot.items():
             dist["e2e_" + k] = v
         samples.append({"e2e_summary": tot})
+    dist["load_retries(units re-run alone after a wall-clock expiry)"] = LOAD_RETRIES["n"]
     # dedupe failures by key
     seen, uf = set(), []
     for f in fails:
@@ -1136,49 +1197,143 @@ def correspond(ctx):
                     "cannot share a translation unit): source.c's own _dispatch_source_timer_data is run in harness/c11_cfg.c "
                     "(#include of source.c) against the model's latch at the bracketing clock readings, and source.c's own latch, "
                     "invoke2 order and rearm rule are tied by replaying recorded runs of the whole library (harness/c11_trace.c) "
-                    "through the model, every manager pass and every _dispatch_unote_resume compared; the "
+                    "through the model, every manager pass compared and the extracted wake_needed / invoke_step evaluated at "
+                    "every source-side call; the "
                     "library's outputs are additionally judged in Python against the property (double heap shape, count = boundaries, "
                     "never early, run fixpoint, programmed expiry = minimum, configure replaces and clears pending data); "
                     "second layer: public-API runs (dispatch_after, timer sources on uptime / monotonic / wall clocks, suspend-resume "
                     "churn, set_timer while suspended / with a blocked target queue / from the handler) judged by reading the clock "
-                    "inside the handler against the deadline decoded from the dispatch_time_t, zero tolerance" % depth,
+                    "inside the handler against the deadline decoded from the dispatch_time_t, zero tolerance (no elapsed-time window "
+                    "decides a verdict: 'fires' is awaited with a progress watchdog)" % depth,
             "samples": samples, "distribution": dist, "mismatches": mism[:30], "failures": uf[:20]}
 
 
+def _model_exe():
+    okc, outc = common.coq_make(["Extract/Extract_c11.vo"], timeout=9000)
+    if not okc:
+        return None
+    mexe, _ = common.build_ocaml("c11_driver.ml", extracted=("c11_model",))
+    return mexe
+
+
+def _replay_one(ctx, f, exe, mexe):
+    """re-execute one recorded failure / broken-tie entry and re-judge it: 1 reproduces, 0 does not, 2 nothing could be executed"""
+    kind = f.get("kind")
+    mism, fails, dist, samples = [], [], {}, []
+    tie = f.get("_tie", False)          # a correspondence mismatch (library vs model), not a property failure
+    def verdict(what_now):
+        if what_now:
+            for w in what_now[:4]:
+                print("  reproduces:", str(w)[:700])
+            return 1
+        print("  does not reproduce")
+        return 0
+    if kind == "heap" and "ops" in f:
+        seqs = [(f["timers"], [tuple(o) for o in f["ops"]])]
+        dumps, mdumps, err = run_heap(exe, mexe, seqs)
+        if dumps is None:
+            print("  could not execute:", err); return 2
+        now = [x["what"] for x in judge_heap(seqs, dumps, "replay")]
+        now += [x["what"] for x in check_heap(seqs, dumps, mdumps)[0]]
+        return verdict(now)
+    if kind == "missed" and "case" in f:
+        c = tuple(f["case"])
+        out, mout, err = run_both(exe, mexe, ["M %d %d %d %d %d" % c])
+        if out is None or len(out) != 1 or len(mout) != 1:
+            print("  could not execute:", err); return 2
+        li, mi = [int(x) for x in out[0].split()], [int(x) for x in mout[0].split()]
+        now = []
+        w = judge_missed(c, li)
+        if w: now.append("compute_missed%s -> %s: %s" % (list(c), li, w))
+        if li != mi: now.append("compute_missed%s: library %s, model %s" % (list(c), li, mi))
+        return verdict(now)
+    if kind in ("tseq", "tseq-tie") and (f.get("lines") or f.get("commands")):
+        lines = f.get("lines") or f.get("commands")
+        nt = f["timers"]
+        out, mout, err = run_both(exe, mexe, lines)
+        cmds = [l for l in lines if l[0] in "RPSlW"]
+        if out is None:
+            print("  could not execute:", err); return 2
+        now = []
+        if not (len(out) == len(mout) == len(cmds)):
+            now.append("state machine: %d commands with an answer, %d library answers, %d model answers" % (len(cmds), len(out), len(mout)))
+        else:
+            for i, (l, m) in enumerate(zip(out, mout)):
+                mi = [int(x) for x in m.split()]
+                if cmds[i][0] in "RW":
+                    mi = mi[1:]
+                if impl_line_to_list(l, nt) != mi:
+                    now.append("state machine: library and model differ at answer %d (%s)" % (i, cmds[i])); break
+            now += [g["what"] for g in judge_tseq(lines, out, nt)]
+        return verdict(now)
+    if kind in ("cfg", "after", "icfg"):
+        cases = ([f["case"]], [], []) if kind == "cfg" else ([], [(f["when"],)], []) if kind == "after" else ([], [], [f["case"]])
+        n = check_cfg(ctx, mexe, mism, fails, dist, samples, cases=cases)
+        if n == 0:
+            print("  could not execute:", str(mism)[:400]); return 2
+        return verdict([x["what"] for x in fails] + [x["what"] + " " + str(x.get("detail"))[:300] for x in mism])
+    if kind == "timer-data" and "case" in f:
+        cexe, msg = common.build_harness("c11_cfg", ["c11_cfg.c"], whitebox=True, exclude_objs=("source.c.o",))
+        if cexe is None:
+            print("  could not execute: harness build failed"); return 2
+        n = check_timer_data(ctx, cexe, mexe, mism, dist, cases=[f["case"]])
+        if n == 0:
+            print("  could not execute:", str(mism)[:400]); return 2
+        return verdict([x["what"] + " " + str(x.get("detail"))[:300] for x in mism])
+    if kind == "epoll" and "script" in f:
+        n = check_epoll(ctx, mexe, mism, fails, dist, samples, script=f["script"])
+        if n == 0:
+            print("  could not execute:", str(mism)[:400]); return 2
+        return verdict([x["what"] for x in fails] + [x["what"] for x in mism])
+    if kind == "trace" and "seed" in f:
+        # the interleaving of a re-recorded run differs; the same scenario (seed) is recorded and judged again, three times
+        n = check_trace(ctx, mexe, mism, fails, dist, samples, seeds=[f["seed"]] * 3)
+        if dist.get("trace_runs", 0) == 0 and not mism:
+            print("  could not execute"); return 2
+        return verdict([x["what"] for x in mism])
+    if kind == "e2e" and "seed" in f:
+        e2e, m5 = common.build_harness("c11_e2e", ["c11_e2e.c"], whitebox=False)
+        if e2e is None:
+            print("  could not execute: harness build failed"); return 2
+        now = []
+        for _ in range(3):      # real threads and real time: the same scenario (seed, scale) three times
+            r = run3([e2e, str(f["seed"]), str(f.get("scale", 1))], timeout=120)
+            if not any(l.startswith("SUMMARY") for l in r.stdout.split("\n")):
+                now.append("end-to-end harness did not finish (rc %s)" % r.returncode)
+            now += [l for l in r.stdout.split("\n") if l.startswith("FAIL")]
+        return verdict(now)
+    print("  not re-executable from this file (kind %r): only a full ./check C11 re-establishes it" % kind)
+    return 2
+
+
 def replay(ctx, obj):
+    """re-executes every recorded failing input / broken tie against the current build and judges it again.
+       1 = at least one reproduces, 0 = all were executed and none reproduces, 2 = nothing (or not everything) could be executed"""
+    common.ensure_build()
     exe, msg = common.build_harness("c11_heap", ["c11_heap.c"], whitebox=True, exclude_objs=("event.c.o",))
-    if exe is None:
-        print("harness build failed", msg)
+    mexe = _model_exe()
+    if exe is None or mexe is None:
+        print("harness / model build failed: nothing could be executed", (msg or "")[-400:])
         return 2
+    res = []
     for f in obj.get("failures", []):
-        print("recorded:", f.get("what"))
-        if f.get("kind") == "heap":
-            ops = [tuple(o) for o in f["ops"]]
-            r = common.run([exe], input="\n".join(heap_input(f["timers"], ops)) + "\n")
-            out = [l for l in r.stdout.split("\n") if l.strip()]
-            keys, present = {}, []
-            for o, l in zip(ops, out):
-                if o[0] == "I":
-                    keys[o[1]] = (o[2], o[3]); present.append(o[1])
-                elif o[0] == "U":
-                    keys[o[1]] = (o[2], o[3])
-                else:
-                    present.remove(o[1])
-                w = judge_dump(parse_dump(l), keys, f["timers"], present)
-                print("  %s -> %s%s" % (list(o), l[:100], ("   <-- " + w) if w else ""))
-        elif f.get("kind") == "missed":
-            r = common.run([exe], input="M %d %d %d %d %d\n" % tuple(f["case"]))
-            li = [int(x) for x in r.stdout.split()]
-            print("  now:", li, judge_missed(tuple(f["case"]), li))
-        elif f.get("kind") == "e2e":
-            e2e, m5 = common.build_harness("c11_e2e", ["c11_e2e.c"], whitebox=False)
-            r = common.run([e2e, str(f["seed"]), str(f.get("scale", 1))], timeout=120)
-            print("  now:", "\n       ".join(r.stdout.strip().split("\n")[:6]))
-        elif f.get("kind") == "tseq":
-            r = common.run([exe], input="\n".join(f["lines"]) + "\n")
-            out = [l for l in r.stdout.split("\n") if l.strip()]
-            for g in judge_tseq(f["lines"], out, f["timers"]):
-                print("  now:", g["what"])
+        print("recorded failure:", str(f.get("what"))[:600])
+        res.append(_replay_one(ctx, f, exe, mexe))
     for b in obj.get("broken", []):
-        print("no longer checks:", str(b)[:600])
-    return 1
+        d = b.get("detail", b) if isinstance(b, dict) else {}
+        print("recorded as no longer shown:", str(b.get("what") if isinstance(b, dict) else b)[:200], "-", str(d.get("what", ""))[:500] if isinstance(d, dict) else "")
+        inner = d.get("detail") if isinstance(d, dict) and isinstance(d.get("detail"), dict) else None
+        if inner is None or "kind" not in inner:
+            print("  not re-executable from this file (a proof obligation, a build or a tie without a recorded input): only a full ./check C11 re-establishes it")
+            res.append(2)
+            continue
+        g = dict(inner); g["_tie"] = True
+        res.append(_replay_one(ctx, g, exe, mexe))
+    if not res:
+        print("the file records nothing to execute")
+        return 2
+    if 1 in res:
+        return 1
+    if 2 in res:
+        return 2
+    return 0
